@@ -19,6 +19,8 @@ if PY2:
 else:
     HEX_TO_BYTE = {(a + b).encode(): bytes.fromhex(a + b) for a in HEX for b in HEX}
 
+HEX_BYTES = HEX.encode()
+PENDING_PERCENT_RE = re.compile(b"%[0-9A-Fa-f]?$")
 ASCII_RE = re.compile("([\x00-\x7f]+)")
 C1_CONTROL_RE = re.compile("[\x80-\x9f]")
 
@@ -51,6 +53,10 @@ def _unquote_impl(string, only_printable=False, unsafe=None):
                 append(b"%")
                 append(item)
             elif unsafe is not None and b in unsafe:
+                append(b"%")
+                append(item)
+            elif unsafe is not None and b in HEX_BYTES and PENDING_PERCENT_RE.search(res):
+                # Decoding would glue a new escape, e.g. "%4%31" -> "%41"
                 append(b"%")
                 append(item)
             else:
